@@ -710,6 +710,10 @@ def sx_call(f, *a, **k):
         return _real_len(a0)
     if f is _real_hash and t0 is SymStr:
         raise Unsupported("hash of symbolic string")
+    if selfobj is os.environ and getattr(f, "__name__", "") == "get" and a and a[0] in ENV.get("environ", ()):
+        return ENV["environ"][a[0]]  # harness-controlled (possibly symbolic) environment variable
+    if f is _real_int and t0 is SymInt:
+        return a0
     if f is _real_int and t0 is SymStr:
         if a0.is_concrete():
             return _real_int(a0.concrete(), *a[1:])
